@@ -30,7 +30,7 @@ Proof. unfold run_comb. induction mods as [|m mods IH]; intros st; simpl; [refle
 Theorem settle_converged fuel n tab mods st st' : settle fuel n tab mods st = (st', true) ->
   exists st0, st' = commit (run_comb tab mods st0) /\ env_eqb n (s_curr st') (s_curr st0) = true.
 Proof.
-  revert st. induction fuel as [|f IH]; intros st H; simpl in H; [discriminate|].
+  revert st. induction fuel as [|f IH]; intros st H; [discriminate|]. cbn [settle] in H. cbv zeta in H.
   destruct (env_eqb n (s_curr (commit (run_comb tab mods st))) (s_curr st)) eqn:E.
   - injection H as <-. exists st. split; [reflexivity|exact E].
   - apply IH in H. exact H.
@@ -136,6 +136,21 @@ Proof.
   intros Hd Hwf Hok Hb Hm. rewrite (sync_process_spec ss tab l rst st Hd Hwf Hok i b Hb). cbv zeta. rewrite Hm. reflexivity.
 Qed.
 
+(* the rising edge of an ASYNCHRONOUS reset alone: every driven bit of a signal that is not reset-less takes its init
+   value at once, nothing else changes (the statements do not run) *)
+Theorem async_reset_spec ss tab l st i b : design_ok ss tab -> 0 <= b < width (ss i) ->
+  Z.testbit (s_next (async_reset_process tab l st) i) b =
+  if Z.testbit (stmts_mask l i) b && negb (sd_reset_less (tab i)) then Z.testbit (sd_init (tab i)) b
+  else Z.testbit (s_next st i) b.
+Proof.
+  intros Hd Hb. destruct (Hd i) as [Hsh Hwf]. unfold async_reset_process. cbn [s_next].
+  destruct (stmts_mask l i =? 0) eqn:E0.
+  - apply Z.eqb_eq in E0. rewrite E0, Z.bits_0. reflexivity.
+  - destruct (sd_reset_less (tab i)); cbn [orb negb]; [rewrite andb_false_r; reflexivity|].
+    rewrite testbit_slot_update, Hsh, testbit_update_mask by auto. rewrite andb_true_r.
+    destruct (Z.testbit (stmts_mask l i) b); reflexivity.
+Qed.
+
 (* ---------- m.next = s ---------- *)
 (* inside a state of an FSM in domain d, `m.next = s` is, in domain d, the assignment of the code of s to the state
    register (nothing in the other domains); outside an FSM it is a SyntaxError *)
@@ -148,3 +163,51 @@ Proof. reflexivity. Qed.
 (* the value assigned is the code itself *)
 Theorem next_value curr k : denote curr (mk_const_auto k) = k.
 Proof. unfold mk_const_auto. simpl. apply norm_id; [apply const_shape_wf|apply const_shape_fits]. Qed.
+
+(* ---------- Case patterns as the user writes them ---------- *)
+Lemma in_range_cong_eq s x y : wf_shape s = true -> in_range s x -> in_range s y ->
+  x mod 2 ^ width s = y mod 2 ^ width s -> x = y.
+Proof.
+  intros Hwf Hx Hy He. unfold wf_shape, in_range in *.
+  assert (Hw : 0 <= width s) by (destruct (sgn s); lia).
+  pose proof (pow2_pos (width s) Hw) as Hp.
+  assert (Hd : (x - y) mod 2 ^ width s = 0) by (rewrite Zminus_mod, He, Z.sub_diag; apply Z.mod_0_l; lia).
+  apply Z.mod_divide in Hd; [|lia]. destruct Hd as [q Hq].
+  destruct (sgn s).
+  - assert (Hh : 2 ^ width s = 2 * 2 ^ (width s - 1)).
+    { replace (width s) with (width s - 1 + 1) at 1 by lia. rewrite Z.pow_add_r by lia. change (2 ^ 1) with 2. lia. }
+    rewrite Hh in Hq. set (h := 2 ^ (width s - 1)) in *.
+    assert (Hq0 : q = 0) by (assert (-1 < q < 1) by nia; lia). subst q. lia.
+  - set (m := 2 ^ width s) in *. assert (Hq0 : q = 0) by (assert (-1 < q < 1) by nia; lia). subst q. lia.
+Qed.
+
+(* an int (or Enum member) pattern that the test's shape represents matches exactly when the test has that value;
+   one it does not represent is dropped (the Case never matches through it) *)
+Theorem int_pattern_matches curr t v : wf_expr t = true -> env_ok curr t ->
+  match normalize_pattern (shape_of t) (RInt v) with
+  | Some (Some p) => pat_sem (pat_of_npat (ewidth t) p) (denote curr t mod 2 ^ ewidth t) = (denote curr t =? v)
+  | Some None => in_range (shape_of t) v -> False
+  | None => False
+  end.
+Proof.
+  intros Hwf Henv. destruct (shape_sound curr t Hwf Henv) as [Hws Hr].
+  unfold normalize_pattern. rewrite const_norm_spec by exact Hws.
+  destruct (norm (shape_of t) v =? v) eqn:E; cbn [negb].
+  - apply Z.eqb_eq in E. assert (Hv : in_range (shape_of t) v) by (rewrite <- E; apply norm_in_range; exact Hws).
+    cbn [pat_of_npat]. unfold bin_pattern. rewrite bin_pattern_nat_sem.
+    assert (Hw : 0 <= ewidth t) by (unfold ewidth, wf_shape in *; destruct (sgn (shape_of t)); lia).
+    rewrite Z2Nat.id by exact Hw. rewrite Z.mod_mod by (pose proof (pow2_pos (ewidth t) Hw); lia).
+    destruct (denote curr t =? v) eqn:Ed.
+    + apply Z.eqb_eq in Ed. rewrite Ed. apply Z.eqb_refl.
+    + apply Z.eqb_neq. intros Hm. apply Z.eqb_neq in Ed. apply Ed.
+      apply (in_range_cong_eq (shape_of t)); auto.
+  - intros Hv. apply Z.eqb_neq in E. apply E. apply norm_id; auto.
+Qed.
+
+(* a string pattern: whitespace is removed, every other character must be 0, 1 or -, and the length must be the
+   width of the test (otherwise SyntaxError) *)
+Theorem str_pattern_normalised sh s :
+  normalize_pattern sh (RStr s) =
+  if existsb (fun c => negb (pchar_legal c)) s then None
+  else if Z.of_nat (length (pchar_strip s)) =? width sh then Some (Some (NStr (pat_of_chars (pchar_strip s)))) else None.
+Proof. unfold normalize_pattern. destruct (existsb _ s); [reflexivity|]. destruct (_ =? width sh); reflexivity. Qed.
